@@ -10,6 +10,7 @@
 mod abnf;
 mod alloc;
 mod ctx;
+mod fam;
 mod gen;
 mod model;
 mod mon;
